@@ -467,6 +467,16 @@ func (c *lctx) pos(v ssa.Value, sym func(v ssa.Value) (lpos, bool)) lpos {
 		if x.Op == token.ADD {
 			return c.pos(x.X, sym).add(c.pos(x.Y, sym))
 		}
+		if x.Op == token.SUB {
+			// len(buf) − len(rest) with rest = buf[p:] (no upper bound anywhere): the position p
+			lx, ly := builtinCall(x.X, "len"), builtinCall(x.Y, "len")
+			if lx != nil && ly != nil {
+				root, off, high := c.sliceAt(ly.Common().Args[0], sym)
+				if root == lx.Common().Args[0] && high == nil && off.bad == "" {
+					return off
+				}
+			}
+		}
 	case *ssa.Convert:
 		// int(int32 sz): a length read from the wire. Inside the property's domain (lengths far below 2^31)
 		// widening commutes with adding a small constant: int(sz+4) = int(sz)+4.
@@ -1452,15 +1462,81 @@ func (L *layouts) streamReader(fn *ssa.Function) *rsum {
 					success = true
 				}
 			}
+			// single-exit style: the results are phis of the return block and exactly one incoming edge is
+			// not an error edge (its source is no error block and its branch does not say "err != nil")
+			edge := -1
+			if len(b.Preds) > 1 {
+				var cands []int
+				for i, p := range b.Preds {
+					if errBlocks[p] {
+						continue
+					}
+					isErrEdge, saysNil := false, false
+					if iff, ok := p.Instrs[len(p.Instrs)-1].(*ssa.If); ok && p.Succs[0] != p.Succs[1] {
+						for _, dc := range condImplies(iff.Cond, p.Succs[0] == b, 0) {
+							if bo, ok := dc.Cond.(*ssa.BinOp); ok && (isNilConst(bo.X) || isNilConst(bo.Y)) {
+								v := bo.X
+								if isNilConst(v) {
+									v = bo.Y
+								}
+								if isErrorType(v.Type()) {
+									if (bo.Op == token.NEQ) == dc.Truth {
+										isErrEdge = true
+									} else if v == errv {
+										saysNil = true
+									}
+								}
+							}
+						}
+					}
+					if isErrEdge {
+						continue
+					}
+					if !saysNil {
+						for _, dc := range blockConds(p, nil, 0) {
+							if bo, ok := dc.Cond.(*ssa.BinOp); ok && (bo.X == errv || bo.Y == errv) && (isNilConst(bo.X) || isNilConst(bo.Y)) && (bo.Op == token.EQL) == dc.Truth {
+								saysNil = true
+							}
+						}
+					}
+					if saysNil {
+						cands = append(cands, i)
+					}
+				}
+				if len(cands) == 1 {
+					hasPhi := false
+					for i := 0; i < nres-1; i++ {
+						if ph, ok := ret.Results[i].(*ssa.Phi); ok && ph.Block() == b {
+							hasPhi = true
+						}
+					}
+					if hasPhi {
+						edge = cands[0]
+						success = true
+					}
+				}
+			}
 			if success {
 				rr := rawRet{consumed: running}
-				for _, dc := range blockConds(b, nil, 0) {
+				cb := b
+				if edge >= 0 {
+					cb = b.Preds[edge]
+					rr.consumed = endAt[cb]
+					if _, ok := endAt[cb]; !ok {
+						rr.consumed = running
+					}
+				}
+				for _, dc := range blockConds(cb, nil, 0) {
 					if e := dataCond(c, dc); e != nil {
 						rr.conds = append(rr.conds, e)
 					}
 				}
 				for i := 0; i < nres-1; i++ {
-					rr.results = append(rr.results, c.expr(ret.Results[i]))
+					rv := ret.Results[i]
+					if ph, ok := rv.(*ssa.Phi); ok && ph.Block() == b && edge >= 0 {
+						rv = ph.Edges[edge]
+					}
+					rr.results = append(rr.results, c.expr(rv))
 				}
 				s.raw = append(s.raw, rr)
 			}
